@@ -100,7 +100,9 @@ func main() {
 	res := &scn.Result{Prop: s.Prop, RunSeed: s.RunSeed, Faults: map[string]int64{}, Probes: map[string]int64{}, KnobState: knobState}
 	switch {
 	case *iso >= 0:
-		if s.Kind == "C" {
+		if s.Prop == "C13" {
+			runIsoC13(&s, *iso, res)
+		} else if s.Kind == "C" {
 			runIsoCLI(&s, *iso, res)
 		} else {
 			runIso(&s, *iso, res)
